@@ -25,7 +25,7 @@ pub const CALL_TEMPLATES: [&str; 6] = [
     "if ({C}) r = 1; else r = 2;",
     "r = ({C}) ? 4 : 5;",
     "while ({C}) { r++; if (r == 3) break; }",
-    "do { r++; } while ({C} && r < 3);",
+    "do { r++; } while (({C}) && r < 3);",
     "r = f(); if (r) b = 1; else b = 2;",
     "a = f() + 1; if (a) r = 1; else r = 2;",
 ];
